@@ -36,6 +36,8 @@ def decide_states(ai, fi, stmt, mk_obls, rule, role, scope=(-3, 8), extra_facts=
                                      label, e, fmt_trace(st.trace)),
                                  stmt, witness={"assignment": wit, "obligation": label,
                                                 "guards": [repr(g) + " >= 0" for g in relevant_guards(st.G, e)]})
+            if verdict == "UNKNOWN":
+                return unrecognised(rule, fi, role, "obligation `%s` neither proved nor refuted within the search budget" % label, stmt)
             if verdict == "BOUNDED":
                 bounded += 1
             if len(facts) < 6:
